@@ -1399,26 +1399,35 @@ class Container:
         if solute not in self.contents:
             raise ValueError(f"Container does not contain {solute.name}.")
 
-        new_ratio, numerator, denominator = Unit.calculate_concentration_ratio(solute, concentration, solvent)
-
-        if numerator == 'U':
-            if not solute.is_enzyme():
-                raise TypeError("Solute must be an enzyme.")
-
-        current_ratio = self.contents[solute] / sum(self.contents[substance] for
-                                                    substance in self.contents if not substance.is_enzyme())
-
-        if new_ratio <= 0:
+        target, numerator, denominator = Unit.parse_concentration(concentration)
+        if numerator == 'U' and not solute.is_enzyme():
+            raise TypeError("Solute must be an enzyme.")
+        if target <= 0:
             raise ValueError("Solution is impossible to create.")
 
-        if abs(new_ratio - current_ratio) <= 1e-6:
+        def amount_in(substance, value, unit):
+            return Unit.convert_from(substance, value,
+                                     'U' if substance.is_enzyme() else config.moles_storage_unit, unit)
+
+        # concentration = amount of solute (numerator unit) / total amount of mixture (denominator unit),
+        # the same definition get_concentration and create_solution use
+        solute_amount = amount_in(solute, self.contents[solute], numerator)
+        current_total = sum(amount_in(substance, value, denominator) for substance, value in self.contents.items())
+        if solute_amount <= 0 or current_total <= 0:
+            raise ValueError("Solution is impossible to create.")
+        current_concentration = solute_amount / current_total
+
+        if abs(target - current_concentration) <= 1e-9 * current_concentration:
             return deepcopy(self)
 
-        if new_ratio > current_ratio:
+        if target > current_concentration:
             raise ValueError("Desired concentration is higher than current concentration.")
 
-        current_umoles = Unit.convert_from_storage(self.contents.get(solvent, 0), 'umol')
-        required_umoles = Unit.convert_from_storage(self.contents[solute], 'umol') / new_ratio - current_umoles
+        # amount of solvent to add, in micromoles
+        solvent_per_mole = Unit.convert_from(solvent, 1, 'mol', denominator)
+        if solvent_per_mole <= 0:
+            raise ValueError("Solvent cannot be measured in the denominator unit of the concentration.")
+        required_umoles = (solute_amount / target - current_total) / solvent_per_mole * 1e6
         new_volume = self.volume + Unit.convert(solvent, f"{required_umoles} umol", config.volume_storage_unit)
 
         if new_volume > self.max_volume:
